@@ -41,7 +41,26 @@ GroupHolds(g, vals) ==      \* vals[i] = condition i evaluated on the target
                     [] OTHER -> \A i \in 1..Len(vals) : vals[i]
          IN  IF g.neg THEN ~r ELSE r
 
-StateIs(rule, k, v) == \E j \in 1..Len(rule.state) : rule.state[j] = <<k, v>>
+\* a state value / the value a state condition is configured with: a text or a whole number, [num, n, s].
+\* state entry == <<key, value>> ; condition [t |-> "state", k, op, num, n, v (text)].  eq / ne are (in)equality (the text
+\* "5" is not the number 5); the order operators compare numbers with numbers and texts with texts (by code points); a
+\* text and a number are not ordered - the comparison does not hold.  A key that was never set satisfies no condition.
+SVal(t) == [num |-> FALSE, n |-> 0, s |-> t]
+NVal(n) == [num |-> TRUE, n |-> n, s |-> <<>>]
+CondVal(c) == [num |-> c.num, n |-> c.n, s |-> c.v]
+RECURSIVE LexLess(_, _)
+LexLess(a, b) == IF b = <<>> THEN FALSE ELSE IF a = <<>> THEN TRUE
+                 ELSE IF a[1] # b[1] THEN a[1] < b[1] ELSE LexLess(Tail(a), Tail(b))
+NumRel(op, a, b) == CASE op = "gte" -> a >= b [] op = "gt" -> a > b [] op = "lte" -> a <= b [] OTHER -> a < b
+CmpVals(a, op, b) ==
+    CASE op = "eq" -> a = b
+      [] op = "ne" -> a # b
+      [] OTHER -> IF a.num /\ b.num THEN NumRel(op, a.n, b.n)
+                  ELSE IF ~a.num /\ ~b.num THEN
+                      (CASE op = "gte" -> ~LexLess(a.s, b.s) [] op = "gt" -> LexLess(b.s, a.s)
+                         [] op = "lte" -> ~LexLess(b.s, a.s) [] OTHER -> LexLess(a.s, b.s))
+                  ELSE FALSE
+StateIs(rule, c) == \E j \in 1..Len(rule.state) : rule.state[j][1] = c.k /\ CmpVals(rule.state[j][2], c.op, CondVal(c))
 InSeq(x, s) == \E j \in 1..Len(s) : s[j] = x
 PlainText(v) == RefPlain(v.parts)        \* the plain form a string pattern is matched against
 
@@ -82,7 +101,7 @@ RuleCond(c, rule) ==
       [] c.t = "attr" -> AttrCond(c, rule)
       [] c.t = "contains_item" -> \E j \in 1..Len(rule.items) :
                                     rule.items[j].field = c.k /\ \E i \in 1..Len(rule.items[j].vals) : ValueIs(rule.items[j].vals[i], c.v)
-      [] OTHER -> StateIs(rule, c.k, c.v)
+      [] OTHER -> StateIs(rule, c)
 
 \* ---- detection item conditions -----------------------------------------------------------
 \* value conditions carry all |-> BOOLEAN (cond: all / any)
@@ -93,7 +112,7 @@ ValCond(c, v) ==
       [] OTHER -> v.t = "null"
 ItemCond(c, it, rule) ==
     CASE c.t = "applied" -> InSeq(c.s, it.applied)
-      [] c.t = "state" -> StateIs(rule, c.k, c.v)
+      [] c.t = "state" -> StateIs(rule, c)
       [] OTHER -> IF c.all THEN \A j \in 1..Len(it.vals) : ValCond(c, it.vals[j])
                   ELSE \E j \in 1..Len(it.vals) : ValCond(c, it.vals[j])
 
@@ -103,7 +122,7 @@ FieldCond(c, name, applied, rule) ==
     CASE c.t = "include" -> InSeq(name, c.names)
       [] c.t = "exclude" -> ~InSeq(name, c.names)
       [] c.t = "applied" -> InSeq(c.s, applied)
-      [] OTHER -> StateIs(rule, c.k, c.v)
+      [] OTHER -> StateIs(rule, c)
 
 \* ---- the gate ---------------------------------------------------------------------------------
 RuleGate(G, rule) == GroupHolds(G.rule, [i \in 1..Len(G.rule.conds) |-> RuleCond(G.rule.conds[i], rule)])
